@@ -1,7 +1,7 @@
 #!/bin/bash
 # usage: confirm_seed.sh <Cxx> [seed-dir] [record-name]   — confirms a seeded change in its own scratch worktree and records it under /verif/seeded/<id>/
 #   1. demo passes without the patch   2. demo fails with it   3. the workspace still compiles and the existing suite passes with it
-id=$1; wt=${2:-/tmp/seed/$id}; sd=$wt/SEED; rec=${3:-$id}
+id=$1; wt=${2:-/tmp/seed/$id}; sd=$wt/${4:-SEED}; rec=${3:-$id}
 cd $wt || exit 2
 export CARGO_TARGET_DIR=$wt/target CARGO_NET_OFFLINE=true
 git checkout -q -- . ; 
